@@ -4,6 +4,7 @@ package main
 
 import (
 	"fmt"
+	"go/ast"
 	"go/token"
 	"go/types"
 	"sort"
@@ -470,6 +471,29 @@ func ruleC19Records(c *Ctx) {
 					}
 				}
 			}
+			// a table-driven dispatch: the key-type constants listed in the initialiser of a package-level table that the
+			// writer/loader (or a helper of it) consults count as handled
+			for _, in := range instrsOf(fn) {
+				var ops []*ssa.Value
+				for _, op := range in.Operands(ops) {
+					g, ok := (*op).(*ssa.Global)
+					if !ok || g.Pkg != c.SPkg {
+						continue
+					}
+					init := c.globalInit(g.Name())
+					if init == nil {
+						continue
+					}
+					ast.Inspect(init, func(nd ast.Node) bool {
+						if id, ok := nd.(*ast.Ident); ok && strings.HasPrefix(id.Name, "FLAG_KEY_TYPE_") {
+							if _, isConst := sc.Lookup(id.Name).(*types.Const); isConst {
+								out[id.Name] = true
+							}
+						}
+						return true
+					})
+				}
+			}
 		}
 		return out
 	}
@@ -539,6 +563,37 @@ func ruleC19Atomic(c *Ctx) {
 			}
 		}
 	}
+	// the file may be created by a helper that returns it together with the temporary name
+	// (`f, tmpName, discard, err := createTempSnapshot(fileName)`): then the helper's creation is judged inside the helper
+	// (its path must not be the helper's own parameter), and the rename in the caller must move the name the helper returned
+	var opener *ssa.Function // helper with the os.Create
+	var openCall *ssa.Call   // its call in W
+	if !opens(W) {
+		for _, fn := range c.SrcFuncs() {
+			if fn != pa.writer && !c.M.Reach(fn)[pa.writer] {
+				continue
+			}
+			for _, in := range instrsOf(fn) {
+				call, ok := in.(*ssa.Call)
+				if !ok {
+					continue
+				}
+				h := call.Call.StaticCallee()
+				if h == nil || !c.InPkg(h) || !opens(h) {
+					continue
+				}
+				returnsFile := false
+				for i := 0; i < h.Signature.Results().Len(); i++ {
+					if typeString(h.Signature.Results().At(i).Type()) == "*File" {
+						returnsFile = true
+					}
+				}
+				if returnsFile {
+					W, opener, openCall = fn, h, call
+				}
+			}
+		}
+	}
 	// helpers that close the file they are given on every path to their return
 	var closesAlways func(g *ssa.Function, depth int) bool
 	closesAlways = func(g *ssa.Function, depth int) bool {
@@ -573,11 +628,21 @@ func ruleC19Atomic(c *Ctx) {
 	}
 	var create, rename *ssa.Call
 	var closes []*ssa.Call
+	createsFinal := func(call *ssa.Call) bool {
+		for _, leaf := range phiLeaves(call.Call.Args[0], map[ssa.Value]bool{}) {
+			if _, ok := leaf.(*ssa.Parameter); ok {
+				return true
+			}
+		}
+		return false
+	}
 	for _, in := range instrsOf(W) {
 		if call, ok := in.(*ssa.Call); ok {
 			switch fullCalleeName(call) {
 			case "os.Create", "os.OpenFile":
-				create = call
+				if create == nil || !createsFinal(create) {
+					create = call // (a call that can create the final name is the one that is judged)
+				}
 			case "os.Rename":
 				rename = call
 			case "(*os.File).Close":
@@ -596,12 +661,77 @@ func ruleC19Atomic(c *Ctx) {
 		}
 	}
 	key := fnName(W) + ":create-then-rename"
-	if create == nil {
+	if create == nil && opener != nil {
+		// judged through the helper
+		var hcreate *ssa.Call
+		for _, in := range instrsOf(opener) {
+			if call, ok := in.(*ssa.Call); ok {
+				if n := fullCalleeName(call); n == "os.Create" || n == "os.OpenFile" {
+					hcreate = call
+				}
+			}
+		}
+		pathIsParam := false
+		for _, leaf := range phiLeaves(hcreate.Call.Args[0], map[ssa.Value]bool{}) {
+			if _, ok := leaf.(*ssa.Parameter); ok {
+				pathIsParam = true
+			}
+		}
+		// which result of the helper is the created path?
+		tmpIdx := -1
+		for _, b := range opener.Blocks {
+			if ret, ok := b.Instrs[len(b.Instrs)-1].(*ssa.Return); ok {
+				for i, r := range ret.Results {
+					same := r == hcreate.Call.Args[0]
+					// a named result captured by the returned cleanup closure lives in a cell: two loads of that cell
+					if u1, ok := r.(*ssa.UnOp); ok && !same {
+						if u2, ok := hcreate.Call.Args[0].(*ssa.UnOp); ok && u1.X == u2.X {
+							if _, isAl := u1.X.(*ssa.Alloc); isAl {
+								same = true
+							}
+						}
+					}
+					if same {
+						tmpIdx = i
+					}
+				}
+			}
+		}
+		movesTmp := false
+		if rename != nil && tmpIdx >= 0 {
+			if ex, ok := rename.Call.Args[0].(*ssa.Extract); ok && ex.Tuple == ssa.Value(openCall) && ex.Index == tmpIdx {
+				movesTmp = true
+			}
+		}
+		isP := func(v ssa.Value) bool { _, ok := v.(*ssa.Parameter); return ok }
+		switch {
+		case pathIsParam:
+			c.S.Bad("R-C19-atomic-replace", key, c.Pos(hcreate.Pos()), "the helper creates (truncates) the file under the name it was given — the final snapshot name: a crash or error in the middle leaves a partial file")
+		case rename == nil:
+			c.S.Bad("R-C19-atomic-replace", key, c.Pos(openCall.Pos()), "the writer creates a temporary file but never renames it onto the final name")
+		case !isP(rename.Call.Args[1]) || !movesTmp:
+			c.S.Bad("R-C19-atomic-replace", key, c.Pos(rename.Pos()), "the rename does not move the file the helper created onto the final name")
+		case closeCall == nil:
+			c.S.Bad("R-C19-atomic-replace", key, c.Pos(rename.Pos()), "the file is renamed onto the final name before it has been closed")
+		default:
+			c.S.OK("R-C19-atomic-replace", key, c.Pos(rename.Pos()), "temporary file (created by "+fnName(opener)+"), closed, then renamed onto the final name")
+		}
+	} else if create == nil {
 		c.S.Undecided("R-C19-atomic-replace", key, c.Pos(W.Pos()), "the writer does not open a file with os.Create/os.OpenFile")
 		return
 	}
-	isParam := func(v ssa.Value) bool { _, ok := v.(*ssa.Parameter); return ok }
+	// the path may be the final name on some way into the call (`target := tmp; if first { target = fileName }`)
+	isParam := func(v ssa.Value) bool {
+		for _, leaf := range phiLeaves(v, map[ssa.Value]bool{}) {
+			if _, ok := leaf.(*ssa.Parameter); ok {
+				return true
+			}
+		}
+		return false
+	}
 	switch {
+	case create == nil:
+		// judged through the opener helper above
 	case isParam(create.Call.Args[0]):
 		c.S.Bad("R-C19-atomic-replace", key, c.Pos(create.Pos()), "the writer creates (truncates) the final snapshot file and streams into it: a crash or error in the middle leaves a partial file that loads as an empty or unreadable database")
 	case rename == nil:
@@ -819,6 +949,41 @@ func ruleC14Select(c *Ctx) {
 			switch f {
 			case fSel, fDs:
 				if isFresh(fa.X) {
+					if f == fDs {
+						// a new connection starts in the database whose index the constructor leaves in selectedDb (0 when
+						// it stores none): the database object comes from a lookup in the table by that constant index
+						want := int64(0)
+						for _, in2 := range instrsOf(fn) {
+							if st2, ok := isStoreTo(in2, fSel); ok && sameBase(st2.Addr.(*ssa.FieldAddr).X, fa.X) {
+								if k, isC := constInt(st2.Val); isC {
+									want = k
+								} else {
+									want = -1
+								}
+							}
+						}
+						okInit := false
+						v := st.Val
+						if ex, isEx := v.(*ssa.Extract); isEx {
+							v = ex.Tuple
+						}
+						if call, isCall := v.(*ssa.Call); isCall && call.Call.StaticCallee() != nil && c.InPkg(call.Call.StaticCallee()) {
+							for _, a := range call.Call.Args {
+								if k, isC := constInt(a); isC && k == want {
+									if _, isInt := a.Type().Underlying().(*types.Basic); isInt {
+										okInit = true
+									}
+								}
+							}
+						}
+						key := fmt.Sprintf("%s:init %s", fnName(fn), f.Name())
+						if okInit {
+							c.S.OK("R-C14-select", key, c.Pos(st.Pos()), fmt.Sprintf("a new connection is bound to the database looked up by index %d, the index it reports", want))
+						} else {
+							c.S.Bad("R-C14-select", key, c.Pos(st.Pos()), fmt.Sprintf("%s binds a new connection to a database that is not looked up by the index the connection reports as selected (%d): commands of the new connection can run against another database than SELECT/CLIENT INFO say", fnName(fn), want))
+						}
+						continue
+					}
 					c.S.Trivial("R-C14-select", fmt.Sprintf("%s:init %s", fnName(fn), f.Name()), c.Pos(st.Pos()), "constructor")
 					continue
 				}
